@@ -36,6 +36,8 @@ def gen_cases(tier, seed):
         case["y0"] = "rand" if rng.random() < 0.7 else "none"
         case["x0"] = "restart"
         case["x0_seed"] = int(rng.integers(0, 1000))
+        # starts strictly inside the box but within a hair of a bound (closer than the checker's perturbation)
+        case["x0_near"] = bool(k % 3 == 1)
         # checker parameters: defaults and non-default perturbation / tolerance pairs
         pert, tol = [(1e-8, 1e-4), (1e-8, 1e-4), (1e-7, 1e-5), (1e-6, 1e-4), (1e-8, 1e-5), (1e-7, 1e-4)][int(rng.integers(0, 6))]
         case["deriv_pert"], case["deriv_tol"] = pert, tol
@@ -201,6 +203,13 @@ def run_case(case):
     bump("non_default_checker_parameters", int((EPSc, TOLc) != (1e-8, 1e-4)))
     res["maxes"] = {"fd_error_bound": bound}
     bump("base_runs")
+    if case.get("x0_near"):
+        xs = work.x0_array(p)
+        lbv, ubv = np.asarray(spec.var_lb, float), np.asarray(spec.var_ub, float)
+        with np.errstate(invalid="ignore"):
+            near = ((xs > lbv) & (xs - lbv < EPSc)) | ((xs < ubv) & (ubv - xs < EPSc))
+        bump("bases_with_start_within_pert_of_a_bound", int(bool(np.any(near))))
+        bump("start_components_within_pert_of_a_bound", int(np.count_nonzero(near)))
     bump("bases_shared_structure_%s" % case.get("fmt"), int(case.get("policy") == "shared"))
     evals = 1
     nt = 0
